@@ -227,4 +227,6 @@ def canon_fold_names(c):
     """canonical tree text with the spelling of names case-folded (used only
     when a layout changed keyword case: intrinsic / keyword-argument names
     written in another case are the same names)"""
-    return _NAME_RE.sub(lambda m: "%s('%s')" % (m.group(1), m.group(2).lower()), c)
+    c = _NAME_RE.sub(lambda m: "%s('%s')" % (m.group(1), m.group(2).lower()), c)
+    # the kind parameter of a literal constant (2_ik) is a name held as a plain string
+    return re.sub(r"""(_Constant\((?:'[^']*'|"[^"]*"), ')(\w+)(')""", lambda m: m.group(1) + m.group(2).lower() + m.group(3), c)
